@@ -34,6 +34,7 @@ inductive Op
   | exec (sim : Nat) (draws : Nat) (py : Bool)   -- a sampling execution drawing `draws` numbers
   | foreignRandom (n : Nat)              -- user code calls `random.random()` n times
   | foreignSeed (s : Nat)                -- user code calls `random.seed(s)`
+  | reseed (c : Nat) (seed : Nat)        -- `config.seed_sequence = seed`: the setter builds two NEW generators
   deriving Repr, DecidableEq
 
 def init : World := { glob := ⟨0, 0⟩, gens := [], cfgs := [], sims := [], entropy := 0 }
@@ -79,6 +80,12 @@ def step (w : World) : Op → World × List Draw
           ({ w with gens := w.gens.set gi g' }, out)
   | .foreignRandom n => ({ w with glob := (drawN w.glob n).1 }, [])
   | .foreignSeed s => ({ w with glob := ⟨s, 0⟩ }, [])
+  | .reseed c seed =>
+    -- only THIS config object is rebound to the new generators; copies keep the old ones
+    if c < w.cfgs.length then
+      let i := w.gens.length
+      ({ w with gens := w.gens ++ [⟨seed, 0⟩, ⟨seed, 0⟩], cfgs := w.cfgs.set c ⟨i, i + 1⟩ }, [])
+    else (w, [])
 
 def run (w : World) : List Op → World × List (List Draw)
   | [] => (w, [])
